@@ -27,8 +27,12 @@ TEXT = {
  "C20": ("whole-library simulation against a virtual clock (coarse: reads that do not advance; forward jumps): myth_sleep/usleep/nanosleep with durations 0..seconds and malformed requests, timed lock with past/present/future deadlines against a holder thread, timed join against running/finished targets, sibling threads counting progress; oracle = virtual elapsed >= requested, EINVAL for malformed, timeout only after the last clock value handed to the call exceeded the deadline, success when the mutex was free throughout / the target had published its result before the call, a sleeper on the only worker lets a runnable sibling progress", "5.C20"),
  "C17": ("whole-library simulation of myth_create_join_many_ex / _various_ex (n incl. 0, all stride combinations incl. shared function slot and strides larger than the element, results/ids/attrs NULL or given, per-item attributes, nested call from a thread) and, through a C++ harness, of mtbb::task_group (up to 40 run() calls > inline capacity 8, nested groups, reuse) and mtbb::parallel_for (first,last), (first,last,step) and the grain-size form incl. empty, single-element and reversed ranges; oracle = per-item counters, argument addresses, result/id slots, guard bytes, nothing for n=0 / empty range, i.e. the sequential loop", "5.C17"),
  "C03": ("whole-library simulation (library built at -O2 and at -O0) of probe threads that call every kind of switching API through an assembly stub loading per-(thread,operation) patterns into rbx, rbp, r12-r15 and a stack array, entered through both creation paths and migrating between workers under the seeded scheduler; oracle = bit-exact registers and stack contents after every operation, 16-byte aligned frame asserted inside every hook (hooks execute in all context-switch callbacks, thread entry paths and the scheduler), aligned SSE store at thread entry", "5.C03"),
+ "C18": ("serial deterministic simulation of multi-worker executions for the DAG Recorder: generated well-nested task programs run on a virtual work-stealing scheduler with a virtual clock, each execution recorded several times with identical timing under different contraction options (never / by span / uncollapse_min / by node count / towards a target size); oracle = work, critical path, interval counts and edge counts by kind computed independently from the generated program and from the per-interval user hooks, compared with GS.root->info, with the .stat file, with the totals of the dumped DAG (materialised edges + logical counts) and across all option settings; T_inf <= T_1", "5.C18"),
+ "C19": ("same simulated executions: dr_dump -> dr_read_dag -> re-dump and text conversion must be identical; an independent structural validator checks child/subgraph offsets, edge endpoints, edge grouping/sorting and edge ranges, reachability of every leaf; a chronological replay must start and end every leaf once and finish with nothing running or ready; dr_copy_pi_dag (shrink) under seeded targets must preserve the totals and stay well formed; 1..50 distinct source-file names", "5.C19"),
 }
 NOTE = {
+ "C18": "the recorder, not MassiveThreads, is the system under test; the tasking runtime is simulated; PAPI counters off",
+ "C19": "byte comparison ignores the two in-memory pointers of the string-table header that the writer stores and the reader overwrites; no I/O fault injection",
  "C03": "x86-64 inline-assembly context switch only; MXCSR/x87 control words are not saved by the library (MYTH_SAVE_FPCSR 0) and are not checked; the red-zone skip is internal to the library frame at the asm statement",
  "C17": "stride arithmetic is input-driven; grain size 0 is not generated; range-object parallel_for (needs TBB headers) is not built",
  "C15": "the configuration-string half is input generation in fresh processes (natural timing); values that are well formed but unusable (tiny stacks, thousands of workers, numeric overflow) are never generated",
@@ -79,6 +83,10 @@ def main():
         "engines": [
             {"name": "mvsim", "path": "/verif/sim", "serves_properties": sorted(k for k in PROPS if PROPS[k].get("engine", "mvsim") == "mvsim"),
              "kind_free_text": "whole-library deterministic simulator: workers as coroutines on one OS thread, seeded scheduler, virtual clock, allocation ledger"},
+            {"name": "wsq_tso", "path": "/verif/harness/wsq_tso.cc", "serves_properties": ["C02"],
+             "kind_free_text": "x86-TSO/SC unit simulator running the real deque algorithm text against shadow variables with per-participant store buffers"},
+            {"name": "drsim", "path": "/verif/harness/drsim.c", "serves_properties": ["C18", "C19"],
+             "kind_free_text": "serial discrete-event simulator of a multi-worker task-parallel execution driving the real DAG Recorder"},
         ],
         "checks": checks,
         "not_applicable": na,
